@@ -21,7 +21,8 @@ type Ptr struct {
 }
 
 type SliceV struct {
-	obj           int // heap id of the backing ArrV; 0 = nil slice
+	obj           int   // heap id of the object holding the backing ArrV; 0 = nil slice
+	path          []int // where the backing array sits inside that object (empty: the object itself)
 	off, len, cap *Term
 }
 
